@@ -119,12 +119,12 @@ Definition brush_ok_b (nx ny bs : nat) (brush : arr2) (l : list bool) : bool :=
   | Some (tv, ts) => arr2_eqb (bnot nx ny (dil nx ny bs brush ts)) (dil nx ny bs brush tv)
   | None => false
   end.
-Definition plus3 : arr2 := [[false; true; false]; [true; true; true]; [false; true; false]].   (* circular_brush(3) *)
+Definition plus3 : arr2 := [[false; true; false]; [true; true; true]; [false; true; false]].   (* circular_brush(2.5) *)
 Definition dot1 : arr2 := [[true]].                                                              (* circular_brush(1) *)
 (* all_blists *)
 Fixpoint all_blists (n : nat) : list (list bool) :=
   match n with 0 => [[]] | S n' => flat_map (fun l => [false :: l; true :: l]) (all_blists n') end.
-(* (extent, brush) pairs of the bounded family: circular_brush(3) up to 3x3, circular_brush(1) up to 2x3 *)
+(* (extent, brush) pairs of the bounded family: circular_brush(2.5) up to 3x3, circular_brush(1) up to 2x3 *)
 Definition brush_family : list (nat * nat * nat * arr2) :=
   map (fun s => (fst s, snd s, 3, plus3)) [(1, 1); (1, 3); (3, 1); (2, 2); (2, 3); (3, 2); (3, 3)] ++
   map (fun s => (fst s, snd s, 1, dot1)) [(1, 1); (1, 3); (2, 2); (2, 3)].
@@ -140,7 +140,7 @@ Qed.
 Lemma brush_bounded_ok : brush_bounded_b = true.
 Proof. vm_compute. reflexivity. Qed.
 
-(* for every two-level design on the listed boxes and the brushes circular_brush(1), circular_brush(3): the loop stops,
+(* for every two-level design on the listed boxes and the brushes circular_brush(1), circular_brush(2.5): the loop stops,
    and a pixel is void (not in the result) exactly when it lies in the footprint of a void touch *)
 Lemma brush_bounded_spec nx ny bs brush l : In (nx, ny, bs, brush) brush_family -> length l = nx * ny ->
   exists tv ts, generator_touches nx ny bs brush (design_of ny l) (2 * (nx * ny) + 1) = Some (tv, ts) /\
